@@ -91,6 +91,7 @@ func (rn *run) check(name string, sc stepCtx, sr stepResult, declared []canon, r
 				fmt.Sprintf("package is invalid for a %s revision (%s) but the pre-establish runtime hook ran [%s]", sc.Typ, strings.Join(reasons, ","), sc.Situation), wit())
 		default:
 			c.Count("rejected_as_required", 1)
+			c.Count("rejected_ok_"+kr, 1)
 		}
 		return
 	}
@@ -958,6 +959,22 @@ func main() {
 	close(ch)
 	wg.Wait()
 	c.Extra("golden_allowed_kinds", g.Packages)
+	if c.Only == "" {
+		for _, need := range []string{"established_sets_compared", "established_from_cache", "established_from_registry", "rejected_as_required", "concurrent_reconcile_pairs", "signature_reconciles", "builds_ok", "cache_state_warm", "cache_state_damaged"} {
+			if c.Counter(need) == 0 {
+				c.Inconclusive("nothing observed for " + need)
+			}
+		}
+		fs, src := int64(0), int64(0)
+		for _, p := range []string{"first", "second", "header", "early", "mid", "late", "last"} {
+			fs += c.Counter("fsfault_fired_write_" + p)
+			src += c.Counter("srcfault_fired_" + p)
+		}
+		if fs == 0 || src == 0 || c.Counter("fsfault_fired_create_n/a") == 0 || c.Counter("fsfault_fired_close_n/a") == 0 {
+			c.Inconclusive("a class of injected faults never fired")
+		}
+	}
+	raceReports(c)
 	c.Finish()
 }
 
